@@ -250,3 +250,40 @@ pub fn grown_bitmap(total: usize, ps: usize) -> vm_memory::bitmap::AtomicBitmap 
     c.count("probe.bitmap_grown_by_enlarge");
     b
 }
+
+/// Like `grown_bitmap`, but pages of the part that exists before each `enlarge` step may be marked
+/// first (biased to the last page, which may share its word with pages added by the step): marks made
+/// before a bitmap grows are owed to whoever harvests it afterwards. Returns the pages marked.
+pub fn grown_bitmap_marked(total: usize, ps: usize) -> (vm_memory::bitmap::AtomicBitmap, std::collections::BTreeSet<usize>) {
+    use vm_memory::bitmap::AtomicBitmap;
+    let psn = std::num::NonZeroUsize::new(ps).unwrap();
+    let c = crate::sim::cx();
+    let mut marked = std::collections::BTreeSet::new();
+    if total < 2 || c.a(3) != 0 {
+        return (AtomicBitmap::new(total, psn), marked);
+    }
+    let first = 1 + c.a(total as u32 - 1) as usize;
+    let mut b = AtomicBitmap::new(first, psn);
+    let mut mark = |b: &AtomicBitmap, bytes: usize| {
+        let c = crate::sim::cx();
+        let pages = bytes.div_ceil(ps);
+        for _ in 0..c.a(4) {
+            let p = if c.a(2) == 0 { pages - 1 } else { c.a(pages as u32) as usize };
+            b.set_bit(p);
+            marked.insert(p);
+        }
+    };
+    mark(&b, first);
+    let rest = total - first;
+    let step = if rest > 1 && c.a(2) == 0 { 1 + c.a(rest as u32 - 1) as usize } else { rest };
+    b.enlarge(step);
+    if rest > step {
+        mark(&b, first + step);
+        b.enlarge(rest - step);
+    }
+    c.count("probe.bitmap_grown_by_enlarge");
+    if !marked.is_empty() {
+        c.count("probe.bitmap_grown_by_enlarge_with_pages_marked");
+    }
+    (b, marked)
+}
